@@ -1,12 +1,12 @@
 SPECIFICATION Spec
 CONSTANTS
-  Nodes = {1, 2, 3}
+  Nodes = {1, 2, 3, 4}
   Ideal = 2
   MaxCommits = 2
-  Crashes = TRUE
+  Crashes = FALSE
   WriteFailures = TRUE
-  Dedup = FALSE
-  Order = "pre"
+  Dedup = TRUE
+  Order = "post"
 INVARIANTS TypeOK Closed DurableKept NothingLost
 PROPERTY AppendOnly
 CHECK_DEADLOCK FALSE
